@@ -582,8 +582,29 @@ def rule_prefix_decay(ctx):
     facts = ctx.facts
     fn = get_fn(facts, M, "fuzzy_optimal::<impl matrix::MatcherDataView<'_, H>>::score_row")
     cands = [l for l in range(1, len(fn.b["locals"])) if fn.names.get(l) == "prefix_bonus" and fn.b["locals"][l]["ty"] == "u16"]
-    if not cands:
-        raise Inconclusive("score_row: no u16 local named prefix_bonus")
+    # the bonus may also be carried in a field of a cursor/state struct (`state.prefix_bonus`)
+    def has_field(pl):
+        return pl is not None and any(isinstance(e, dict) and e.get("name") == "prefix_bonus" for e in pl["p"])
+    f_decay, f_reads = set(), set()
+    for bi in sorted(fn.live):
+        for s_ in fn.blocks[bi]["stmts"]:
+            if s_.get("k") != "assign":
+                continue
+            rv = s_["rv"]
+            ops = [rv[k] for k in ("use", "cast", "a", "b", "repeat") if isinstance(rv.get(k), dict)] + list(rv.get("ops", []))
+            if any(has_field(op_place(o)) for o in ops) or any(has_field(rv.get(k)) for k in ("ref", "rawptr") if isinstance(rv.get(k), dict)):
+                f_reads.add(bi)
+            if has_field(s_["lhs"]) and isinstance(s_["lhs"]["p"][-1], dict) and s_["lhs"]["p"][-1].get("name") == "prefix_bonus":
+                if any(x[0] == "call" and "saturating_sub" in str(x[1]) for x in walk(fn.expr_of_rvalue(rv))):
+                    f_decay.add(bi)
+        t = fn.blocks[bi]["term"]
+        if t["k"] == "call":
+            if any(has_field(op_place(a)) for a in t["args"]):
+                f_reads.add(bi)
+            if has_field(t["dest"]) and "saturating_sub" in callee(t):
+                f_decay.add(bi)
+    if not cands and not f_reads and not f_decay:
+        raise Inconclusive("score_row: no u16 local or struct field named prefix_bonus")
     # the by-value parameter of a folded-in helper is a per-column copy of the loop-carried bonus, not a bonus of its own
     def is_copy(l):
         ds = fn.defs.get(l, [])
@@ -598,8 +619,13 @@ def rule_prefix_decay(ctx):
         return True
     cands = [l for l in cands if not is_copy(l)]
     n = 0
-    for L in cands:
+    carriers = [("local", L) for L in cands] + ([("field", None)] if (f_reads or f_decay) else [])
+    for ckind, L in carriers:
         refs = set()
+        if ckind == "field":
+            decay = set(f_decay)
+            n = _prefix_decay_loops(ctx, fn, n, decay, lambda body: any(b_ in body for b_ in f_reads))
+            continue
         for bi in sorted(fn.live):
             for s_ in fn.blocks[bi]["stmts"]:
                 if s_.get("k") == "assign" and "ref" in s_["rv"] and s_["rv"].get("mut") and s_["rv"]["ref"]["l"] == L and not s_["rv"]["ref"]["p"] and not s_["lhs"]["p"]:
@@ -631,9 +657,14 @@ def rule_prefix_decay(ctx):
                 decay.add(bi)
             if t["k"] == "call" and "saturating_sub" in callee(t) and t["dest"]["p"] == ["deref"] and t["dest"]["l"] in refs:
                 decay.add(bi)
+        n = _prefix_decay_loops(ctx, fn, n, decay, lambda body: any((u[1] in body) for u in uses_of_local(fn, L)) or any(any(u[1] in body for u in uses_of_local(fn, r_)) for r_ in refs))
+    ctx.floor("first-row column loops that use the prefix bonus", n, 1)
+
+
+def _prefix_decay_loops(ctx, fn, n, decay, uses_in):
+    if True:
         for h, body, srcs in fn.loops():
-            uses_here = any((u[1] in body) for u in uses_of_local(fn, L)) or any(any(u[1] in body for u in uses_of_local(fn, r_)) for r_ in refs)
-            if not uses_here:
+            if not uses_in(body):
                 continue
             n += 1
             key = "%s|prefix-decay|%d" % (fn.path, n)
@@ -658,7 +689,7 @@ def rule_prefix_decay(ctx):
                               "occurrence of needle[0] keeps the bonus of an earlier column, and the matrix score exceeds the score of every real alignment")
             else:
                 ctx.ok(site(fn, h), "prefix bonus decays (saturating_sub) on every path through a column of the first row")
-    ctx.floor("first-row column loops that use the prefix bonus", n, 1)
+    return n
 
 
 def rule_slab_choice(ctx):
